@@ -396,11 +396,11 @@ def gen_case(rng, kind=None, opts=None):
         b.add(st)
     # phase A: print every variable the program defined
     for n in sorted(b.scalars):
-        b.add('PRINT "<%s>";%s;"|"' % (n, n))
+        b.add('LOCATE 1,1:PRINT "<%s>";%s;"|"' % (n, n))
     for n in sorted(b.arrays):
         for ix in b.elements(b.arrays[n]):
             ref = '%s(%s)' % (n, ','.join(map(str, ix)))
-            b.add('PRINT "<%s>";%s;"|"' % (ref, ref))
+            b.add('LOCATE 1,1:PRINT "<%s>";%s;"|"' % (ref, ref))
     # nesting
     nest = rng.choice(['', 'G', 'GF', 'GFW', 'F', 'W', 'GG', 'H', 'HG'])
     if nest.startswith('H') and not b.trap:
@@ -525,6 +525,29 @@ def program_text(lines):
 
 # ----------------------------------------------------------------------------------------------------
 
+class _FastTime(object):
+    """time module for pcbasic.basic.eventcycle in the test harness: sleep(0) (three per executed statement,
+    only there to yield the GIL to an interface thread that does not exist here) costs ~0.15 ms on a busy
+    machine"""
+
+    def __init__(self, real):
+        self._real = real
+
+    def __getattr__(self, name):
+        return getattr(self._real, name)
+
+    def sleep(self, t):
+        if t > 0:
+            self._real.sleep(t)
+
+
+def fast_events():
+    import importlib
+    ec = importlib.import_module('pcbasic.basic.eventcycle')
+    if not isinstance(ec.time, _FastTime):
+        ec.time = _FastTime(ec.time)
+
+
 class StopAfter(object):
     """interpreter.step hook: break at the first program line reached after the command"""
 
@@ -542,8 +565,8 @@ class C23(core.Check):
     GEN = ['gen_clear']
     PROPS = 'props/C23.v'
     MODEL_IMPORTS = ['gen.Gen_clear', 'model.ClearChain']
-    QUICK_CASES = 260
-    THOROUGH_CASES = 3000
+    QUICK_CASES = 130
+    THOROUGH_CASES = 1500
     TRUSTED = ['table extractor translate/targets/gen_clear.py (AST -> guarded operation lists); meaning of the '
                'table strings (prim_call / prim_assign) and hand model of preserve_commons / gather_commons in '
                'model/ClearChain.v, tied by exact correspondence of the whole post-state; program loading, '
@@ -568,6 +591,7 @@ class C23(core.Check):
 
     def _run(self, case):
         from pcbasic.basic.base import tokens as tk
+        fast_events()
         res = {'pre': None, 'post': None, 'exc': None, 'outA': '', 'probes': [], 'host': None, 'rebuilt': False}
         d = common.tmpdir('c23')
         try:
@@ -644,36 +668,40 @@ class C23(core.Check):
 
     # ---- probing through BASIC (after the snapshots)
     def probe_list(self, case, gcmem=9000):
-        """[(key, direct statement)]"""
+        """[(key, direct statement)]; LOCATE keeps the cursor off the bottom line (scrolling is slow)"""
         p = []
-        p.append(('errerl', 'PRINT "<E>";ERR;ERL;"|"'))
-        p.append(('fre', 'PRINT "<F>";FRE(0);"|"'))
-        p.append(('rnd', 'PRINT "<R>";RND;"|"'))
+        p.append(('errerl', 'LOCATE 1,1:PRINT "<E>";ERR;ERL;"|":PRINT "<F>";FRE(0);"|":PRINT "<R>";RND;"|"'))
         for n, dims in case['arrays']:
             if max(dims) < 10:      # a missing array is dimensioned to 10 by the probe itself
-                p.append(('shape:' + n, 'PRINT "<S>";%s(%s);"|"' % (n, ','.join(str(x + 1) for x in dims))))
+                p.append(('shape:' + n, 'LOCATE 1,1:PRINT "<S>";%s(%s);"|"' % (n, ','.join(str(x + 1) for x in dims))))
+        refs = []
         for n, dims in case['arrays']:
             lo = case['base'] or 0
             idx = [[]]
             for x in dims:
                 idx = [i + [k] for i in idx for k in range(lo, x + 1)]
-            for ix in idx:
-                ref = '%s(%s)' % (n, ','.join(map(str, ix)))
-                p.append(('var:' + ref, 'PRINT "<%s>";%s;"|"' % (ref, ref)))
-        for n in case['scalars'] + ['Z9!']:
-            p.append(('var:' + n, 'PRINT "<%s>";%s;"|"' % (n, n)))
-        p.append(('data', 'READ D9%:PRINT "<D>";D9%;"|"'))
-        p.append(('deftype', 'ZZ=1.5:PRINT "<T>";ZZ;"|"'))
-        p.append(('fn', 'PRINT "<N>";FNA!(1);"|"'))
+            refs += ['%s(%s)' % (n, ','.join(map(str, ix))) for ix in idx]
+        refs += case['scalars'] + ['Z9!']
+        line = 'LOCATE 1,1'
+        for ref in refs:
+            item = ':PRINT "<%s>";%s;"|"' % (ref, ref)
+            if len(line) + len(item) > 230:
+                p.append(('vars', line))
+                line = 'LOCATE 1,1'
+            line += item
+        p.append(('vars', line))
+        p.append(('data', 'LOCATE 1,1:READ D9%:PRINT "<D>";D9%;"|"'))
+        p.append(('deftype', 'LOCATE 1,1:ZZ=1.5:PRINT "<T>";ZZ;"|"'))
+        p.append(('fn', 'LOCATE 1,1:PRINT "<N>";FNA!(1);"|"'))
         # OPTION BASE: remove every array first (probing a missing array dimensions it and sets the base)
         for n, dims in case['arrays']:
             p.append(('erase', 'ERASE %s' % n))
-        p.append(('base', 'DIM QQ%(0):ERASE QQ%:OPTION BASE 1:PRINT "<B>ok|"'))
-        p.append(('trap', 'ERROR 200'))
-        p.append(('return', 'RETURN'))
-        p.append(('next', 'NEXT'))
-        p.append(('wend', 'WEND'))
-        p.append(('gc', 'CLEAR ,%d:FOR I9%%=1 TO 1500:Q9$="ab"+STR$(I9%%):NEXT:PRINT "<G>ok|"' % gcmem))
+        p.append(('base', 'LOCATE 1,1:DIM QQ%(0):ERASE QQ%:OPTION BASE 1:PRINT "<B>ok|"'))
+        p.append(('trap', 'LOCATE 1,1:ERROR 200'))
+        p.append(('return', 'LOCATE 1,1:RETURN'))
+        p.append(('next', 'LOCATE 1,1:NEXT'))
+        p.append(('wend', 'LOCATE 1,1:WEND'))
+        p.append(('gc', 'CLEAR ,%d:FOR I9%%=1 TO 400:Q9$="abcdef"+STR$(I9%%):NEXT:LOCATE 1,1:PRINT "<G>ok|"' % gcmem))
         return p
 
     def probe(self, s, case, res):
@@ -905,19 +933,28 @@ class C23(core.Check):
                     elif k == 1:
                         keep_a.add(full)
         dims = dict((n, d) for n, d in case['arrays'])
+        after = {}
         for k, v in res['probes']:
-            if k.startswith('var:'):
-                ref = k[4:]
-                name = ref.split('(')[0]
-                kept = (name in keep_a) if '(' in ref else (name in keep_s)
-                got = dict(TAG.findall(v)).get(ref)
-                if kept and ref in before:
-                    if got != before[ref]:
-                        return 'COMMON variable %s was %r before CHAIN and is %r after' % (ref, before[ref], got)
-                elif not kept:
-                    if got != default(ref) and not ('(' in ref and 'Out of memory' in v):
-                        return 'variable %s survived %s: %r' % (ref, op['text'], v)
-            elif k.startswith('shape:'):
+            if k == 'vars':
+                after.update(dict(TAG.findall(v)))
+        refs = [n for n in case['scalars']] + ['Z9!']
+        for n, dd in case['arrays']:
+            idx = [[]]
+            for x in dd:
+                idx = [i + [j] for i in idx for j in range(case['base'] or 0, x + 1)]
+            refs += ['%s(%s)' % (n, ','.join(map(str, ix))) for ix in idx]
+        for ref in refs:
+            name = ref.split('(')[0]
+            kept = (name in keep_a) if '(' in ref else (name in keep_s)
+            got = after.get(ref)
+            if kept and ref in before:
+                if got != before[ref]:
+                    return 'COMMON variable %s was %r before CHAIN and is %r after' % (ref, before[ref], got)
+            elif not kept:
+                if got != default(ref):
+                    return 'variable %s survived %s: %r' % (ref, op['text'], got)
+        for k, v in res['probes']:
+            if k.startswith('shape:'):
                 name = k[6:]
                 if name in keep_a:
                     if 'Subscript out of range' not in v:
@@ -930,11 +967,11 @@ class C23(core.Check):
             # free memory as in a fresh session with this program and memory size: no variable, no string
             post = res['post']
             want = post['total'] - post['stack'] - 2 - post['code_start'] - post['prog']
-            got = dict(TAG.findall(probes['fre'])).get('F')
+            got = dict(TAG.findall(probes['errerl'])).get('F')
             if got is None or int(float(got)) != want:
-                return 'FRE(0) after %s is %r, a fresh session has %d' % (op['text'], probes['fre'], want)
-        if dict(TAG.findall(probes['rnd'])).get('R') != ' .1213501 ':
-            return 'random number sequence not reset by %s: %r' % (op['text'], probes['rnd'])
+                return 'FRE(0) after %s is %r, a fresh session has %d' % (op['text'], got, want)
+        if dict(TAG.findall(probes['errerl'])).get('R') != ' .1213501 ':
+            return 'random number sequence not reset by %s: %r' % (op['text'], probes['errerl'])
         first_data = {'CLEAR': ' 11 ', 'NEW': None, 'RUN': ' 11 ', 'CHAIN': ' 77 '}[cmd]
         if cmd == 'RUN' and op['variant'] in ('file', 'file_r'):
             first_data = ' 77 '
